@@ -20,6 +20,9 @@ CLAIMED = {
  "C20": dict(cat="proof", tech="Lean 4 + Mathlib theorems over the reals about the code's formulas (written once, generically) + correspondence of the Float instance with the implementation on all trigger tables and random boxes",
              text="The code's formulas are written once over abstract arithmetic operations; instantiated with the real numbers, Lean/Mathlib proves that the box test is exactly containment in the box's own orthonormal frame with half extents + 2 yards (isWithinSquare_iff, frame_reconstruct), that the circle test is Euclidean distance < radius on the same map, that the distance helpers are the Euclidean distance, and that verify_trigger is consistent with containment for any table. The same definitions instantiated with Float are compared with the implementation on the triggers of all three tables and on random rotated boxes near faces, edges and corners (abstaining within 2e-3 of a boundary). Partial: f32 rounding and libm are not modelled.",
              note="Trusted: Lean kernel, Mathlib; that Float/f32 evaluation follows the real-number formula away from boundaries (checked by correspondence, not proved); tools/triggers.py.", ref="§4 C20"),
+ "C01": dict(cat="proof", tech="Lean 4 mutual-induction theorem decode_encode over the closed wowm syntax (all programs, all values) + corpus re-translated from the wowm sources + structure-directed correspondence with the libraries' public readers/writers",
+             text="Lean proves, by mutual structural induction over the closed syntax (structs, fixed/counted/endless arrays, if / else-if / else over enums and flags, optional tails, constants, self.size, strings, packed guids, upcast enums), that for every well-formed container and every value the specification decoder returns exactly the value and consumes exactly the specification encoding — so the canonical encodings of a definition are a well-defined, uniquely readable set. The wowm corpus is re-translated into that syntax on every run by an independent reader, well-formedness is checked for every container, and for every version-expanded message structure-directed canonical encodings are framed, read through the libraries' opcode readers and written back; bytes, consumed length and message identity must agree. Messages with compressed parts or the rarer built-ins are listed, not yet modelled. Three genuine defects are listed as known findings.",
+             note="Trusted: Lean kernel; tools/wowm.py + tools/corpus.py (translation of the wowm sources); the every-value quantifier is carried by the theorem on the specification side and by branch-directed sampling on the Rust side; Rust harness.", ref="§4 C01"),
 }
 NA_REASON = "not yet claimed: machinery for this property is still under construction (see DESIGN.md §7 order of construction)"
 
